@@ -26,6 +26,10 @@ def run(ctx):
         vals = gen.records(rnd, 10)
         noisy = rnd.random() < 0.25
         # values are always separated by whitespace (touching values: known finding K4)
+        # long tokens too (numbers, strings, literals of several bytes): a delivery boundary may fall inside any of them
+        for _ in range(rnd.randint(0, 3)):
+            vals.insert(rnd.randint(0, len(vals)), rnd.choice([1234567, 0.12345, -98765.4321, 1e21, 12345678901234567890, 'a long string with \u00e9 and "quotes"', True, False, None,
+                                                             {'n': 314159, 'f': 2.71828, 's': 'xyzzy', 't': True, 'z': None}, [100, 200.5, -300]]))
         parts = [gen.jdump(v) for v in vals]
         if noisy and parts: parts.insert(rnd.randint(0, len(parts)), b'} x')
         data = b''
@@ -55,6 +59,21 @@ def run(ctx):
         for t, g in enumerate(groups):
             sc = {'id': 'S%d_%d' % (i, t), 'cfg': fc['cfg'], 'files': True, 'inputs': [{'data': g, 'name': 'in%d_%d.json' % (i, t)}]}
             cases.append(sc); meta[sc['id']] = ('single', fc['cfg'], g, t)
+    # inputs larger than any internal buffer (8 KiB, 64 KiB), whole and in large uneven reads: tokens straddle every block boundary.
+    # The extracted model is too slow for these sizes; the oracle is locality (C11): the output of the whole input is the
+    # concatenation of the outputs of its pieces, each piece (cut between tokens) small enough to fit in any buffer
+    bigcases = []; bigmeta = []
+    for i in range(2 if ctx['tier'] == 'quick' else 12):
+        toks = [rnd.choice([b'%d' % rnd.randint(10 ** 5, 10 ** 9), b'%d.%d' % (rnd.randint(0, 999), rnd.randint(10 ** 3, 10 ** 6)), b'"%s"' % (b'w' * rnd.randint(3, 40)), b'[true,false,null]'])
+                + rnd.choice([b' ', b'\n']) for _ in range(rnd.choice([2500, 9000]))]
+        big = b''.join(toks)
+        ids = []
+        for j, ch in enumerate([None, [rnd.choice([4096, 8191, 8192, 8193, 5000, 65536]) for _ in range(64)]]):
+            c = mkcase('KB%d_%d' % (i, j), lib.new_cfg(), big); c['inputs'][0]['chunking'] = ch; bigcases.append(c); ids.append(c['id'])
+        pieces = []
+        for t in range(0, len(toks), 100):
+            c = mkcase('KP%d_%d' % (i, t), lib.new_cfg(), b''.join(toks[t:t + 100])); bigcases.append(c); pieces.append(c['id'])
+        bigmeta.append((big, ids, pieces))
     def proj(c, r, side):
         out = r['stdout']
         if side == 'impl':
@@ -148,6 +167,18 @@ def run(ctx):
         if bad:
             v = viol(c, 'directory argument: ' + bad, a['stdout'].decode('utf8', 'replace')[:500], json.dumps(c['_files'])); v['dir'] = True
             v['names'] = [x['name'] for x in c['inputs']]; violations.append(v)
+    bimpl = lib.run_harness(bigcases)
+    for big, ids, pieces in bigmeta:
+        exp = b''.join(bimpl[p]['stdout'] for p in pieces)
+        for cid in ids:
+            a = bimpl[cid]; checked += 1
+            if a['result'] != 'ok' or a['stdout'] != exp:
+                c = [x for x in bigcases if x['id'] == cid][0]
+                # first differing row, for the report
+                ra, re_ = a['stdout'].split(b'\n'), exp.split(b'\n'); k = next((t for t in range(min(len(ra), len(re_))) if ra[t] != re_[t]), min(len(ra), len(re_)))
+                v = viol(c, 'a large input (%d bytes) gives the concatenation of the outputs of its pieces, however it is delivered' % len(big),
+                         'row %d: %s' % (k, ra[k:k + 2]), 'row %d: %s' % (k, re_[k:k + 2])); v['stdin'] = '(%d bytes, see inputs_hex)' % len(big)
+                violations.append(v)
     known = []
     for k in ctx['known']:
         w = k['witness']; kc = {'id': 'k', 'cfg': lib.new_cfg(), 'args': w['args'], 'inputs': [{'data': bytes.fromhex(w['stdin_hex'])}]}
@@ -155,7 +186,7 @@ def run(ctx):
         rws = [json.loads(r) for r in rows(res['stdout'])]
         if len(rws) == 2 and rws[1].get('s') != rws[0].get('e') - 0 or (len(rws) == 2 and rws[1].get('s') == 5):
             known.append('%s %s: %s' % (k['id'], k['class'], k['what']))
-    cov = {'evaluations': len(cases) + len(dcases), 'directory_runs': len(dcases), 'distinct_nontrivial': common.nontrivial_count(cases, impl),
+    cov = {'evaluations': len(cases) + len(dcases) + len(bigcases), 'large_input_runs': sum(len(x[1]) for x in bigmeta), 'directory_runs': len(dcases), 'distinct_nontrivial': common.nontrivial_count(cases, impl),
            'rule': 'clean and noisy streams x chunkings (whole, 1-byte reads, random sizes) x partitions into 1..4 files at value boundaries or cutting inside a value, and directories of 2..4 files given as one argument x --only-objects-and-arrays on/off; input-context selectors checked against byte offsets computed independently',
            'samples': [common.describe(c) for c in cases[:2]],
            'traces_validated_against_impl': len(cases) - len(mism), 'model_mismatches': len(mism), 'direct_relations_checked': checked}
